@@ -499,6 +499,20 @@ def baseFields (c : Ctx) (fields : Option (List Str)) : List Str :=
   | some fs => fs
   | none => c.defaultFields
 
+/-- fields of one query-string term: its own `field:` prefix or the base fields -/
+def termGroup (base : List Str) (sc : Bool) (t : QTerm) : Group :=
+  ⟨(match t.field with | some f => [f] | none => base), t.term, .exact, sc⟩
+
+def phraseSpecOf (base : List Str) (ph : QPhrase) : PhraseSpec :=
+  ⟨(match ph.field with | some f => [f] | none => base), ph.terms, 0⟩
+
+/-- `multi_match` ignores `field:` prefixes: every term and phrase runs over the node's fields -/
+def mmGroup (fields : List Str) (sc : Bool) (t : QTerm) : Group := ⟨fields, t.term, .exact, sc⟩
+def mmPhrase (fields : List Str) (ph : QPhrase) : PhraseSpec := ⟨fields, ph.terms, 0⟩
+
+def phraseNodeSpec (c : Ctx) (f : Option Str) (ts : List Str) (slop : Nat) : PhraseSpec :=
+  ⟨(match f with | some f => [f] | none => c.defaultFields), ts, slop⟩
+
 mutual
 /-- `QueryPlanBuilder::build_node`, matcher component; `sc` = the `score` flag -/
 def plan (c : Ctx) (sc : Bool) : Q → Matcher
@@ -507,20 +521,16 @@ def plan (c : Ctx) (sc : Bool) : Q → Matcher
   | .pfx f v cap => .term ⟨[f], v, .pfx cap, sc⟩
   | .wildcard f v cap => .term ⟨[f], v, .wildcard cap, sc⟩
   | .regex f v cap => .term ⟨[f], v, .regex cap, sc⟩
-  | .phrase f ts slop => .phrase ⟨(match f with | some f => [f] | none => c.defaultFields), ts, slop⟩
+  | .phrase f ts slop => .phrase (phraseNodeSpec c f ts slop)
   | .queryString q fields =>
     let p := parseQuery q
     let base := baseFields c fields
-    let fs (t : QTerm) : List Str := match t.field with | some f => [f] | none => base
-    .queryString (p.terms.map (fun t => ⟨fs t, t.term, .exact, sc⟩))
-      (p.phrases.map (fun ph => ⟨(match ph.field with | some f => [f] | none => base), ph.terms, 0⟩))
-      (p.notTerms.map (fun t => ⟨fs t, t.term, .exact, false⟩)) none
+    .queryString (p.terms.map (termGroup base sc)) (p.phrases.map (phraseSpecOf base))
+      (p.notTerms.map (termGroup base false)) none
   | .multiMatch q fields _ty opAnd msm =>
     let p := parseQuery q
-    .queryString (p.terms.map (fun t => ⟨fields, t.term, .exact, sc⟩))
-      (p.phrases.map (fun ph => ⟨fields, ph.terms, 0⟩))
-      (p.notTerms.map (fun t => ⟨fields, t.term, .exact, false⟩))
-      (resolveMsm msm p.terms.length opAnd)
+    .queryString (p.terms.map (mmGroup fields sc)) (p.phrases.map (mmPhrase fields))
+      (p.notTerms.map (mmGroup fields false)) (resolveMsm msm p.terms.length opAnd)
   | .disMax qs => .disMax (planList c sc qs)
   | .bool must should mustNot filter msm =>
     .bool (planList c sc must) (planList c sc should) (planList c false mustNot) filter msm
@@ -666,8 +676,8 @@ def searchOrds (c : Ctx) (segs : List Seg) (q : Q) (root : Option Flt) : List (L
 
 /-- ids of the hits -/
 def search (c : Ctx) (segs : List Seg) (q : Q) (root : Option Flt) : List Str :=
-  (segs.zip (searchOrds c segs q root)).flatMap (fun (s, os) => os.filterMap (fun o => (s.docs[o]?).map (·.id)))
-
+  segs.flatMap (fun s =>
+    (searchSeg c segs (plan c true q) root s).filterMap (fun o => (s.docs[o]?).map (·.id)))
 
 mutual
 /-- all phrase specs of a matcher -/
@@ -766,25 +776,24 @@ def matchesQ (c : Ctx) (d : ADoc) (sc : Bool) : Q → Bool
   | .pfx f v cap => group c d ⟨[f], v, .pfx cap, sc⟩
   | .wildcard f v cap => group c d ⟨[f], v, .wildcard cap, sc⟩
   | .regex f v cap => group c d ⟨[f], v, .regex cap, sc⟩
-  | .phrase f ts slop => phrase c d ⟨(match f with | some f => [f] | none => c.defaultFields), ts, slop⟩
+  | .phrase f ts slop => phrase c d (phraseNodeSpec c f ts slop)
   | .queryString q fields =>
     let p := parseQuery q
     let base := baseFields c fields
-    let fs (t : QTerm) : List Str := match t.field with | some f => [f] | none => base
     -- every quoted phrase is required, no negated term may occur, and (when there are plain
     -- terms) at least one of them occurs
     !(p.terms.isEmpty && p.phrases.isEmpty && p.notTerms.isEmpty) &&
-    p.notTerms.all (fun t => !group c d ⟨fs t, t.term, .exact, false⟩) &&
-    p.phrases.all (fun ph => phrase c d ⟨(match ph.field with | some f => [f] | none => base), ph.terms, 0⟩) &&
-    (p.terms.isEmpty || p.terms.any (fun t => group c d ⟨fs t, t.term, .exact, sc⟩))
+    p.notTerms.all (fun t => !group c d (termGroup base false t)) &&
+    p.phrases.all (fun ph => phrase c d (phraseSpecOf base ph)) &&
+    (p.terms.isEmpty || p.terms.any (fun t => group c d (termGroup base sc t)))
   | .multiMatch q fields _ty opAnd msm =>
     let p := parseQuery q
     !(p.terms.isEmpty && p.phrases.isEmpty && p.notTerms.isEmpty) &&
-    p.notTerms.all (fun t => !group c d ⟨fields, t.term, .exact, false⟩) &&
-    p.phrases.all (fun ph => phrase c d ⟨fields, ph.terms, 0⟩) &&
+    p.notTerms.all (fun t => !group c d (mmGroup fields false t)) &&
+    p.phrases.all (fun ph => phrase c d (mmPhrase fields ph)) &&
     (p.terms.isEmpty ||
       decide ((resolveMsm msm p.terms.length opAnd).getD 1 ≤
-        (p.terms.filter (fun t => group c d ⟨fields, t.term, .exact, sc⟩)).length))
+        (p.terms.filter (fun t => group c d (mmGroup fields sc t))).length))
   | .disMax qs => matchesAny c d sc qs
   | .bool must should mustNot filter msm =>
     matchesAll c d sc must && !(matchesAny c d false mustNot) && Flt.passesAll d filter &&
@@ -815,6 +824,61 @@ def searchOrds (c : Ctx) (segs : List Seg) (q : Q) (root : Option Flt) : List (L
 end Spec
 
 /-! ## decidable side conditions of the refinement theorem (also reported by the driver) -/
+
+/-- candidate test of a pattern group on one dictionary term, as the documented semantics reads
+it (no literal-prefix shortcut) -/
+def patMatches (c : Ctx) (e : Expansion) (tok t : Str) : Bool :=
+  match e with
+  | .exact => t == tok
+  | .pfx _ => isPrefix tok t
+  | .wildcard _ => wildMatch tok t
+  | .regex _ => c.rx tok t
+
+/-- fuzzy candidates of one token over all segments, before the `max_expansions` cut -/
+def fuzzyCands (segs : List Seg) (f tok : Str) (fz : Fuzzy) : List Str :=
+  segs.foldl (fun seen s =>
+    seen ++ (segTerms s f).filter (fun t =>
+      !t.isEmpty && isPrefix (tok.take (min fz.prefixLength tok.length)) t && t != tok &&
+      (match boundedLev tok t (min fz.maxEdits 2) with | some dist => dist != 0 | none => false) &&
+      !seen.contains t)) []
+
+/-- the group stays below its expansion caps: per segment at most `max_expansions` dictionary
+terms match a prefix/wildcard/regex pattern; all fuzzy candidates of a token fit into the
+request's `fuzzy.max_expansions` -/
+def belowCaps (c : Ctx) (segs : List Seg) (g : Group) : Bool :=
+  match g.exp with
+  | .exact =>
+    match c.fuzzy with
+    | some fz =>
+      !g.score || min fz.maxEdits 2 == 0 ||
+        g.fields.all (fun f => (exactTokens c f g.term).all (fun tok =>
+          decide (tok.length < fz.minLength) || fz.maxExpansions == 0 ||
+            decide ((fuzzyCands segs f tok fz).length ≤ fz.maxExpansions)))
+    | none => true
+  | e =>
+    g.fields.all (fun f => (patternTokens c f g.term).all (fun tok => segs.all (fun s =>
+      decide (((segTerms s f).filter (fun t => !t.isEmpty && expMatches c e tok t)).length ≤ e.cap))))
+
+/-- the literal-prefix shortcut of a regex group loses no dictionary term: every term the
+pattern matches starts with `regex_literal_prefix(pattern)` -/
+def rxPrefixOk (c : Ctx) (segs : List Seg) (g : Group) : Bool :=
+  match g.exp with
+  | .regex _ =>
+    g.fields.all (fun f => (patternTokens c f g.term).all (fun tok => segs.all (fun s =>
+      (segTerms s f).all (fun t => !(c.rx tok t) || isPrefix (rxPrefix tok) t))))
+  | _ => true
+
+/-- the document carries a term that some regex group of the request matches but whose
+literal-prefix scan skips (signature predicate of the finding `regex.literal-prefix`) -/
+def rxPrefixMiss (c : Ctx) (m : Matcher) (d : ADoc) : Bool :=
+  m.groups.any (fun g =>
+    match g.exp with
+    | .regex _ =>
+      g.fields.any (fun f => (patternTokens c f g.term).any (fun tok =>
+        (docTerms d f).any (fun t => !t.isEmpty && c.rx tok t && !isPrefix (rxPrefix tok) t)))
+    | _ => false)
+
+
 
 /-- on every dictionary term of every segment the expansion of the group agrees with the
 documented reading of the group (`Spec.termOk`) — true unconditionally for exact groups without
